@@ -71,12 +71,15 @@ Guard(st, e) ==
            [] e.op = "open" ->
                 \* the temp is ANY name in the destination's directory that is not a destination (e.i >= 1:
                 \* the harness numbers such names); which one, and in which order names are tried, is free
+                \* whether the directory is made sure of before or after a first failed attempt is free: an
+                \* open that fails because the directory is missing creates nothing (res "noent")
                 IF r.pc \notin {"idle", "open"} THEN "open.pc"
-                ELSE IF ~st.dir THEN "open.nodir"
+                ELSE IF e.res = "noent" THEN (IF st.dir THEN "open.res" ELSE "")
+                ELSE IF ~st.dir /\ e.res # "fault" THEN "open.res"
                 ELSE IF e.i < 1 THEN "open.place"
                 ELSE IF e.res = "exists" /\ ~HasTmp(st, e.i) THEN "open.res"
                 ELSE IF e.res = "ok" /\ HasTmp(st, e.i) THEN "open.exclusive"   \* never opens an existing file
-                ELSE IF e.res \notin {"ok", "exists", "fault"} THEN "open.res"
+                ELSE IF e.res \notin {"ok", "exists", "fault", "noent"} THEN "open.res"
                 ELSE ""
            [] e.op = "bcall" -> IF r.pc # "body" THEN "bcall.pc" ELSE IF e.n < 0 THEN "bcall.n" ELSE ""
            [] e.op = "write" ->
@@ -109,7 +112,8 @@ Guard(st, e) ==
            [] e.op = "end" ->
                 \* (how the outcome is reported to the caller is not part of the property; a failed mkdir of
                 \* an existing directory may be ignored or reported)
-                IF r.pc \in {"done", "failed"} \/ (r.pc = "open" /\ r.mkf) THEN "" ELSE "end.pc"
+                \* - or the directory cannot be had at all and the writer gives up before creating anything
+                IF r.pc \in {"done", "failed"} \/ (r.pc = "open" /\ (r.mkf \/ ~st.dir)) THEN "" ELSE "end.pc"
            \* the process may be killed at any boundary, also after the last operation but before
            \* control is back at the caller (pc done / failed, not yet returned)
            [] e.op = "crash" -> IF r.pc = "dead" THEN "crash.pc" ELSE ""
@@ -131,6 +135,7 @@ Apply(st0, e) ==
               ELSE [SetW(st, w, [r EXCEPT !.pc = "open"]) EXCEPT !.dir = TRUE]
          [] e.op = "open" ->
               IF flt THEN SetW(st, w, [r EXCEPT !.pc = "failed", !.err = "os"])
+              ELSE IF e.res = "noent" THEN SetW(st, w, [r EXCEPT !.pc = "open"])
               ELSE IF e.res = "exists" THEN SetW(st, w, [r EXCEPT !.pc = "open", !.tried = @ \cup {e.i}])
               ELSE [SetW(st, w, [r EXCEPT !.pc = "body", !.i = e.i, !.tried = {}, !.mkf = FALSE])
                         EXCEPT !.tmp = AddTmp(@, e.i, [owner |-> w, data |-> FALSE])]
